@@ -106,7 +106,7 @@ static CaseResult run_case(Tape &t, const dif::CaseOpt &opt = dif::CaseOpt())
 		int src = nhon + (int)t.below((uint32_t)(nsac + nhost));
 		scn::ScriptClient &sc = E.S(src).sc;
 		std::string what;
-		switch (t.pick({4, 6, 6, 5, 3, 2, 2, 2, 3, 2, 3})) {
+		switch (t.pick({4, 6, 6, 5, 3, 2, 2, 2, 3, 2, 3, 3})) {
 		case 0: { sim::Datagram dg; dg.src = sc.addr; dg.dst = sc.server; dg.data = mal::raw_bytes(t, ms); sim::W.send(dg); what = fmt("raw bytes %zuB", dg.data.size()); break; }
 		case 1: { static const char CMD[] = "vVlLiIzZsSoOyYrRnNpP0123456789abcdefABCDEFgxX-_"; char cmd = t.chance(2, 3) ? CMD[t.below(sizeof CMD - 1)] : 0;
 			sim::Datagram dg; dg.src = sc.addr; dg.dst = sc.server; dg.data = mal::hostile_query(t, c.domain, cmd, ms); sim::W.send(dg); what = fmt("malformed DNS %zuB cmd=%c", dg.data.size(), cmd ? cmd : '-'); break; }
@@ -205,6 +205,24 @@ static CaseResult run_case(Tape &t, const dif::CaseOpt &opt = dif::CaseOpt())
 			name += "." + c.domain;
 			E.S(h.src).sc.send_name(name, -1, t.chance(1, 4) ? (int)refproto::qtype_of(1 + (int)t.below(7)) : -1);
 			what = fmt("bare command '%s' from the address of session user %d", name.substr(0, name.find('.')).c_str(), h.user); ms.hit("bare-command-from-session-address");
+			break;
+		}
+		case 11: {  // an upstream data query of a logged-in session (its own, from its own address) whose header is well-formed but whose
+			// payload characters are arbitrary bytes: they go through the upstream codec the session switched to (Base32/64/64u/128)
+			std::vector<int> up; for (int i = nhon; i < nhon + nsac; i++) if (hs[i].up) up.push_back(i);
+			if (up.empty()) break;
+			HonestS &h = hs[up[t.below((uint32_t)up.size())]];
+			scn::ScriptClient &own = E.S(h.src).sc;
+			static const char cm[] = "abcdefghijklmnopqrstuvwxyz0123456789";
+			own.up_seq = (own.up_seq + 1 + (int)t.below(3)) & 7;
+			std::string name = refproto::name_data(own.userid, own.up_seq, (int)t.pick({4, 1}), own.dn_seq, own.dn_frag, (int)t.below(2), cm[own.data_cmc++ % 36], own.up_codec, Bytes(), own.domain);
+			size_t n = t.pick({2, 2, 1}) == 0 ? 1 + t.below(8) : (t.chance(1, 2) ? 1 + t.below(50) : 100 + t.below(120));
+			int cls = (int)t.pick({2, 4, 2, 1});
+			std::string junk;
+			for (size_t i = 0; i < n; i++) { if ((5 + junk.size()) % 60 == 59) junk += '.'; char ch = (char)mal::label_byte(t, cls); if (ch == '.' || ch == 0) ch = (char)0xe9; junk += ch; }
+			if (name.size() > 5 && name[5] == '.') name.insert(5, junk); else name = name.substr(0, 5) + junk + "." + own.domain;
+			own.send_name(name);
+			what = fmt("own-session data (user %d, codec %d) with %zu arbitrary payload bytes", own.userid, own.up_codec, n); ms.hit("own-session-data-with-arbitrary-bytes");
 			break;
 		}
 		default: {  // tunnel command letter followed by arbitrary bytes
